@@ -71,13 +71,42 @@ def contract_unit(c, tier='quick', probe=False, world_setup=None):
         if rep.error:
             out.append(core.ob('%s:checker' % c.short, 'error', 'encoding',
                                detail=rep.error, function=fn))
+        # refutation mode: an inductive obligation that failed or is unknown
+        # says nothing yet about the property; unroll the loops for small
+        # concrete lengths (exact execution, no invariants) and look for an
+        # input that violates the top-level contract itself
+        shaky = [o for o in out if o['status'] in ('failed', 'unknown')
+                 and o['kind'] != 'vacuity']
+        definite = [o for o in out if o['status'] == 'failed'
+                    and o['kind'] in ('post', 'raises')]
+        if shaky and c.loops and not probe and not definite:
+            rbudget = Budget(branch_ms=1000, prove_ms=3000, max_paths=80)
+            for k in (0, 1, 2, 3):
+                c3 = copy.copy(c)
+                c3.loops = []
+                S.FIXED_SEQ_LEN[0] = k
+                try:
+                    rep3 = verify_function(_mk(ctx, world_setup), c3, budget)
+                finally:
+                    S.FIXED_SEQ_LEN[0] = None
+                bad = [o for o in rep3.obligations if o.status == 'failed'
+                       and o.kind in ('post', 'raises')]
+                for o in bad:
+                    out.append(core.ob(
+                        '%s:refuted@len=%d' % (o.name, k), 'failed', o.kind,
+                        o.backend, o.seconds, model=o.model, function=fn,
+                        text=getattr(o, 'text', None),
+                        detail='loops unrolled for sequences of length %d: '
+                               'the top-level contract itself is violated'
+                               % k, line=o.line))
+                if bad:
+                    break
         # cover: the normal-return postcondition point must be reachable
         if not probe and not getattr(c, 'always_raises', False) \
                 and not rep.error and not rep.undecided:
             c2 = copy.copy(c)
             c2.cover_mode = True
-            rep2 = verify_function(World(ctx.repo) if world_setup is None
-                                   else _mk(ctx, world_setup), c2, budget)
+            rep2 = verify_function(_mk(ctx, world_setup), c2, budget)
             reach = any(o.kind == 'cover' and o.status == 'failed'
                         for o in rep2.obligations)
             out.append(core.ob('%s:cover' % c.short,
@@ -152,6 +181,7 @@ def contract_unit(c, tier='quick', probe=False, world_setup=None):
 
     def _mk(ctx, setup):
         w = World(ctx.repo)
-        setup(w)
+        if setup:
+            setup(w)
         return w
     return core.Unit('pyvc:' + c.short, run, backend='pyvc+z3')
